@@ -25,15 +25,34 @@ func checkC01(c TreeCase) Outcome {
 	truth := map[int]bool{}
 	leaves := map[int]bool{}
 	c.Tree.LeafSet(leaves)
+	// the assignment the property defines: a term is true iff at least one allowed entry matches
+	// that single term on its own
+	single := map[string]bool{}
 	for i := range leaves {
+		t := false
+		for _, a := range c.Allowed {
+			k := c.Pool[i].Text + "\x00" + a
+			m, seen := single[k]
+			if !seen {
+				r := Satisfies(c.Pool[i].Text, []string{a})
+				if r.Panic != "" {
+					return fail("C01/panic/"+c.Pool[i].Text, "Satisfies(%q, {%q}) panicked: %s", c.Pool[i].Text, a, r.Panic)
+				}
+				if r.IsErr {
+					return fail("C01/leaf-error/"+c.Pool[i].Text, "valid single term %q with valid entry %q returned %s", c.Pool[i].Text, a, r)
+				}
+				m = r.OK
+				single[k] = m
+			}
+			t = t || m
+		}
+		truth[i] = t
+		// a single term against the whole list is the one-leaf instance of the property
 		r := Satisfies(c.Pool[i].Text, c.Allowed)
-		if r.Panic != "" {
-			return fail("C01/panic/"+c.Pool[i].Text, "Satisfies(%q, %q) panicked: %s", c.Pool[i].Text, c.Allowed, r.Panic)
+		if r.Panic != "" || r.IsErr || r.OK != t {
+			return fail(fmt.Sprintf("C01/verdict/%s | %s", c.Pool[i].Text, strings.Join(c.Allowed, ",")),
+				"Satisfies(%q, %q) = %s, but matching the term against each entry on its own gives %v", c.Pool[i].Text, c.Allowed, r, t)
 		}
-		if r.IsErr {
-			return fail("C01/leaf-error/"+c.Pool[i].Text, "valid single term %q with valid list %q returned %s", c.Pool[i].Text, c.Allowed, r)
-		}
-		truth[i] = r.OK
 	}
 	want := c.Tree.Eval(func(l int) bool { return truth[l] })
 	got := Satisfies(c.Expr, c.Allowed)
@@ -92,6 +111,9 @@ func TestC01_Tree(t *testing.T) {
 					nTrue++
 				}
 			}
+		}
+		if len(c.Allowed) != len(setOf(c.Allowed)) {
+			rec.Class("list-has-duplicates")
 		}
 		mixed := nTrue > 0 && nTrue < len(leaves)
 		nontrivial := c.Tree.Leaves() >= 3 && hasBothOps(c.Tree) && mixed
